@@ -220,6 +220,9 @@ leptos = { version = "0.7.7", default-features = false, features = ["ssr"] }
 leptos_i18n = { path = "%s/leptos_i18n", default-features = false, features = [%s] }
 any_spawner = "0.2"
 futures = { version = "0.3", features = ["executor"] }
+serde_json = "1"
+codee = "0.3"
+icu_locid_transform = { version = "1.5", features = ["compiled_data"] }
 
 [package.metadata.leptos-i18n]%s
 """ % (self.name, REPO, ", ".join(json.dumps(f) for f in feats), meta)
